@@ -82,7 +82,8 @@ finally:
 if ok:
     dst = os.path.join(V, "seeded", a.seed_id)
     os.makedirs(dst, exist_ok=True)
-    shutil.copy(os.path.join(src, "demo.py"), os.path.join(dst, "demo.py"))
+    if os.path.realpath(src) != os.path.realpath(dst):
+        shutil.copy(os.path.join(src, "demo.py"), os.path.join(dst, "demo.py"))
     with open(os.path.join(dst, "patch.diff"), "w") as f:
         f.write(patch_text)
     meta = {}
